@@ -103,3 +103,17 @@ package runs
 //@   requires r != nil && !isnil(r.session) && SessRep(r.session.(*engine.session))
 //@   assigns computed, effects(flows.EventCallback)
 //@   ensures [truncated] runes(result0) <= r.session.(*engine.session).engine.(*engine.engine).options.MaxTemplateChars
+
+// ---- C10: the flow of a restored run is what the flow assets handed back without an error - or nothing: a definition
+// that is missing or no longer loads leaves the run without a flow (and is reported through the missing callback)
+//@ func ReadRun
+//@   havocs UnmarshalAndValidate, GetRun, NewResults, ReadEvent, lastWebhookSavedAsExtra, newLegacyExtra
+//@   requires !isnil(session)
+//@   callback missing(ref, err)
+//@   cb_assigns nothing
+//@   assigns computed
+//@   ensures [flow_as_loaded] isnil(result1) ==> (typeis(result0, *run) && result0.(*run) != nil && (isnil(result0.(*run).flow) || flowLoaded(result0.(*run).flow)))
+//@ loop 1
+//@   invariant true
+//@ loop 2
+//@   invariant true
